@@ -72,8 +72,17 @@ func ruleC08(w *World, r *Report) {
 			eng.taObls(f)
 			eng.exitObls(f)
 			eng.divObls(f)
+			eng.wrapObls(f)
 			if sdf[f] {
 				eng.narrowObls(f)
+			}
+		}
+		// the expansion of a parsed port range (BESS) must terminate for every range the parser accepts
+		{
+			fs := map[*ssa.Function]bool{w.Fn(P, "pfcpiface.(portRange).asComplexTernaryMatches"): true, w.Fn(P, "pfcpiface.CreatePortRangeCartesianProduct"): true}
+			weng := newEngine(w, r, "R08.1", fs)
+			for _, f := range sortedFuncs(w, fs) {
+				weng.wrapObls(f)
 			}
 		}
 		r.floor("R08.1 parser functions", len(funcs), 15)
@@ -325,6 +334,7 @@ func ruleC08(w *World, r *Report) {
 	ruleC08Xform(w, r, flow)
 	ruleC08PFD(w, r)
 	ruleC08KeepUE(w, r)
+	ruleUP4AppKey(w, r, "C08", "R08.6")
 }
 
 var flowLeafRe = regexp.MustCompile(`ipFilterRule(\.[A-Za-z0-9_]+)+`)
@@ -890,4 +900,64 @@ func ruleC08KeepUE(w *World, r *Report) {
 		})
 	}
 	r.floor("R08.5 field-level writers of pdr.appFilter", m, 4)
+}
+
+// ruleUP4AppKey (R08.6, re-filed as R17.9): UP4 shares one internal application ID among PDRs whose
+// "application filter" — remote address, remote port range, protocol — is the same, and writes one
+// applications entry per ID. The key under which IDs are shared (toUP4ApplicationFilter) must be made of
+// exactly the fields the entry is built from (BuildApplicationsTableEntry: destination side for uplink,
+// source side for downlink), unchanged; a key that takes the UE side's port, or that "normalises" a range,
+// gives two different filters one ID: the second PDR is classified by the first one's ports.
+func ruleUP4AppKey(w *World, r *Report, prop, rule string) {
+	f := w.Fn(prop, "pfcpiface.toUP4ApplicationFilter")
+	fn := w.FuncName(f)
+	want := map[string]map[string]string{
+		"uplink":   {"appIP": "appFilter.dstIP", "appL4Port": "appFilter.dstPortRange"},
+		"downlink": {"appIP": "appFilter.srcIP", "appL4Port": "appFilter.srcPortRange"},
+		"":         {"appProto": "appFilter.proto"},
+	}
+	n := 0
+	allInstrs(f, func(i ssa.Instruction) {
+		st, ok := i.(*ssa.Store)
+		if !ok {
+			return
+		}
+		// a field (or a field of a field) of an up4ApplicationFilter cell
+		var path []string
+		addr := st.Addr
+		for k := 0; k < 3; k++ {
+			fa, ok := addr.(*ssa.FieldAddr)
+			if !ok {
+				break
+			}
+			path = append([]string{fieldVar(fa).Name()}, path...)
+			addr = fa.X
+		}
+		if len(path) == 0 {
+			return
+		}
+		if nt := namedOf(addr.Type()); nt == nil || nt.Obj().Name() != "up4ApplicationFilter" {
+			return
+		}
+		n++
+		dir := ""
+		for d, name := range map[string]string{"uplink": "IsUplink", "downlink": "IsDownlink"} {
+			if onlyVia(f, st, func(a, b *ssa.BasicBlock) bool {
+				v, truth, ok := boolEdge(a, b)
+				c, isCall := v.(*ssa.Call)
+				return ok && truth && isCall && staticCallee(c) != nil && staticCallee(c).Name() == name
+			}) {
+				dir = d
+			}
+		}
+		src := symOf(st.Val).String()
+		field := strings.Join(path, ".")
+		exp, known := want[dir][field]
+		if !known {
+			exp, known = want[""][field]
+		}
+		okS := known && strings.HasSuffix(src, exp)
+		r.check(okS, rule, fn, fmt.Sprintf("application key field %s (%s) is the field the applications entry matches on", field, ifelse(dir == "", "any direction", dir)), w.Pos(st.Pos()), src, fmt.Sprintf("the sharing key's %s is set to %s%s: PDRs whose applications entries differ get one internal application ID (or the other way round), so a PDR is classified by another PDR's filter", field, src, ifelse(known, " instead of pdr."+exp, " — the key is altered after it was taken from the PDR")))
+	})
+	r.floor(rule+" stores building the application key", n, 5)
 }
